@@ -5,7 +5,7 @@
    expression without a row, a larger literal, or a shorter array breaks c01_const_indices_in_bounds). *)
 From Coq Require Import ZArith List String Bool.
 From RM Require C02.Layout.
-From RM Require Import Gen.Layouts Gen.C01Sites C01.LayoutPins.
+From RM Require Import Gen.Layouts Gen.C01Sites C01.LayoutPins C01.Sites.
 Import ListNotations.
 Open Scope string_scope.
 Open Scope Z_scope.
@@ -29,7 +29,26 @@ Definition const_index_table : list (string * string * option Z) :=
    ("context.rs|CONTEXT_PPC::set_register|index", "self.gpr", arr_len L_CONTEXT_PPC N_CONTEXT_PPC "gpr");
    ("context.rs|CONTEXT_SPARC::get_register_always|index", "self.g_r", arr_len L_CONTEXT_SPARC N_CONTEXT_SPARC "g_r");
    ("context.rs|CONTEXT_SPARC::set_register|index", "self.g_r", arr_len L_CONTEXT_SPARC N_CONTEXT_SPARC "g_r");
-   (* the Arm64 and OldArm64 arms of MinidumpContext::print: the shorter of the two arrays *)
+   (* round 5, second pass: indices that are discriminants of the fieldless *RegisterNumbers enums of format.rs (the scan resolves
+      `md::XRegisterNumbers::V as usize` to the discriminant and records it under `<expression>@<enum>`): which CONTEXT_* array
+      an enum indexes is this table's business *)
+   ("context.rs|CONTEXT_ARM64::get_register_always|index", "self.iregs@Arm64RegisterNumbers", arr_len L_CONTEXT_ARM64 N_CONTEXT_ARM64 "iregs");
+   ("context.rs|CONTEXT_ARM64::set_register|index", "self.iregs@Arm64RegisterNumbers", arr_len L_CONTEXT_ARM64 N_CONTEXT_ARM64 "iregs");
+   ("context.rs|CONTEXT_ARM64_OLD::get_register_always|index", "self.iregs@Arm64RegisterNumbers", arr_len L_CONTEXT_ARM64_OLD N_CONTEXT_ARM64_OLD "iregs");
+   ("context.rs|CONTEXT_ARM64_OLD::set_register|index", "self.iregs@Arm64RegisterNumbers", arr_len L_CONTEXT_ARM64_OLD N_CONTEXT_ARM64_OLD "iregs");
+   ("context.rs|CONTEXT_ARM::get_register_always|index", "self.iregs@ArmRegisterNumbers", arr_len L_CONTEXT_ARM N_CONTEXT_ARM "iregs");
+   ("context.rs|CONTEXT_ARM::set_register|index", "self.iregs@ArmRegisterNumbers", arr_len L_CONTEXT_ARM N_CONTEXT_ARM "iregs");
+   ("context.rs|CONTEXT_MIPS::get_register_always|index", "self.iregs@MipsRegisterNumbers", arr_len L_CONTEXT_MIPS N_CONTEXT_MIPS "iregs");
+   ("context.rs|CONTEXT_MIPS::set_register|index", "self.iregs@MipsRegisterNumbers", arr_len L_CONTEXT_MIPS N_CONTEXT_MIPS "iregs");
+   ("context.rs|MinidumpContext::get_instruction_pointer|index", "ctx.iregs@ArmRegisterNumbers", arr_len L_CONTEXT_ARM N_CONTEXT_ARM "iregs");
+   ("context.rs|MinidumpContext::get_stack_pointer|index", "ctx.iregs@ArmRegisterNumbers", arr_len L_CONTEXT_ARM N_CONTEXT_ARM "iregs");
+   ("context.rs|MinidumpContext::get_stack_pointer|index", "ctx.gpr@PpcRegisterNumbers", arr_len L_CONTEXT_PPC N_CONTEXT_PPC "gpr");
+   ("context.rs|MinidumpContext::get_stack_pointer|index", "ctx.gpr@Ppc64RegisterNumbers", arr_len L_CONTEXT_PPC64 N_CONTEXT_PPC64 "gpr");
+   ("context.rs|MinidumpContext::get_stack_pointer|index", "ctx.g_r@SparcRegisterNumbers", arr_len L_CONTEXT_SPARC N_CONTEXT_SPARC "g_r");
+   ("context.rs|MinidumpContext::get_stack_pointer|index", "ctx.iregs@MipsRegisterNumbers", arr_len L_CONTEXT_MIPS N_CONTEXT_MIPS "iregs");
+   (* `for reg in MIPS_REGS { .. raw.iregs[*reg as usize] }` in the Mips arm of MinidumpContext::print: the largest discriminant of the enum *)
+   ("context.rs|MinidumpContext::print|index", "raw.iregs@MipsRegisterNumbers", arr_len L_CONTEXT_MIPS N_CONTEXT_MIPS "iregs");
+   (* the Arm64 and OldArm64 arms of MinidumpContext::print (`raw.iregs[29]`, `raw.iregs[30]`, `raw.iregs[..29]`): the shorter of the two arrays *)
    ("context.rs|MinidumpContext::print|index", "raw.iregs",
       omin (arr_len L_CONTEXT_ARM64 N_CONTEXT_ARM64 "iregs") (arr_len L_CONTEXT_ARM64_OLD N_CONTEXT_ARM64_OLD "iregs"));
    (* `let info = &record.exception_information;` *)
@@ -56,3 +75,25 @@ Definition const_index_site_count : nat := fold_right (fun s a => (fst (snd s) +
 (* non-vacuity: an index of 15 into exception_information would be rejected *)
 Definition bad_const_index_rejected : bool :=
   negb (const_index_ok ("minidump.rs|CrashReason::from_windows_exception|index", "info", (1%nat, 15%nat))).
+
+(* round 5, second pass: a row of C01/Sites.v may be classified Covered "c01_const_indices_in_bounds" only if EVERY index site of its
+   group has a constant index (Gen.C01Sites.index_group_counts: sites / sites with a constant index, regenerated by the scan) *)
+Fixpoint find_counts (t : list (string * (nat * nat))) (key : string) : option (nat * nat) :=
+  match t with [] => None | (k, c) :: r => if String.eqb k key then Some c else find_counts r key end.
+Definition fully_constant (key : string) : bool :=
+  match find_counts index_group_counts key with Some (a, c) => Nat.eqb a c && Nat.ltb 0 a | None => false end.
+Definition const_index_row_ok (r : string * (nat * string) * cls) : bool :=
+  match snd r with
+  | Covered "c01_const_indices_in_bounds" => fully_constant (fst (fst r))
+  | _ => true
+  end.
+Lemma covered_index_groups_constant : forallb const_index_row_ok site_table = true.
+Proof. vm_compute. reflexivity. Qed.
+Definition const_index_rows : nat :=
+  List.length (filter (fun r => match snd r with Covered "c01_const_indices_in_bounds" => true | _ => false end) site_table).
+(* non-vacuity: a group whose indices are all enum discriminants is fully constant, one with a variable index is not, and an
+   index of 16 into CONTEXT_ARM.iregs would be rejected *)
+Definition nv_mips_group_constant : bool := fully_constant "context.rs|CONTEXT_MIPS::get_register_always|index".
+Definition nv_exc_print_group_constant : bool := fully_constant "minidump.rs|MinidumpException::print|index".
+Definition nv_arm_index_16_rejected : bool :=
+  negb (const_index_ok ("context.rs|CONTEXT_ARM::get_register_always|index", "self.iregs@ArmRegisterNumbers", (1%nat, 16%nat))).
